@@ -232,7 +232,7 @@ pub fn run(ctx: &mut Ctx) {
     ctx.meta("rule", "cases: API histories on the real iterator over a scripted source. (A) every Σ string up to length nA and every sequence of <= L adversarial header tokens (zero-length numerics, 8-byte ids/sizes, all-ones sizes, sizes of 2^56-2 and 5 GB) x a configuration lattice (8 tolerance subsets x buffered sets x capacities {default,0,3,16} x size limits {default,5,none} x EOF closing on/off): next() until None, then 3 more calls (fused), or <= 3 calls after an error. (B) every Σ string up to length nB and every token x {strict, all tolerated, buffered} x try_recover() replacing next() at every set of <= 2 op positions (incl. before the first next and after None) x an injected source error at read k (<= 2 per history) x short reads. Oracle: every call returns (catch_unwind + watchdog), successful items <= 2*len+12, fused after None with the source exhausted, each injected error surfaces exactly once as ReadError with its message, try_recover fails only with UnexpectedEOF/ReadError. Non-trivial: histories with an error or a recover call.");
     ctx.meta("bounds", &format!("nA={} nB={} token sequences L<={}; <=2 try_recover calls, <=2 injected errors", n_a, n_b, ctx.tier.pick(2, 2)));
     ctx.meta("assumptions", "post-error output is unconstrained except for panics (at most 3 further calls are made) || 64 KiB size limit is not applied here: declared sizes above the limit are rejected by the library before allocation (C17), sizes below it with missing payload allocate what they declare");
-    for c in ["recover_ok", "injected_errors_served", "long_inputs"] {
+    for c in ["recover_ok", "injected_errors_served", "long_inputs", "deep_nesting_inputs"] {
         ctx.expect_nonzero(c);
     }
     let cfgs = configs(quick);
@@ -363,6 +363,72 @@ pub fn run(ctx: &mut Ctx) {
             ctx.transitions += obs.items.len() as u64 + 1;
             if !obs.clean() {
                 ctx.violation("long-input/does-not-parse-cleanly", &d, &format!("{} items then {}", obs.items.len(), obs.term.short()));
+            }
+            ctx.validated += 1;
+            ctx.leave();
+        }
+    }
+    // (D) deep nesting: a specification with a recursive (global) master; the nesting depth comes from the input, so
+    // the library must not recurse on it. Runs on a 1 MiB stack; the items are leaked on purpose (dropping a
+    // 10 000-level Full value recurses in the caller's own type, which is not the library's doing).
+    {
+        let depth = ctx.tier.pick(10_000usize, 50_000);
+        for (i, buffered) in [false, true].into_iter().enumerate() {
+            if !ctx.mine(100 + i as u64) {
+                continue;
+            }
+            let d = || format!("deep nesting: {} nested unknown-size instances of a global master (-)/G, {} (stack 1 MiB)", depth, if buffered { "G buffered" } else { "unbuffered" });
+            if !ctx.enter(&d) {
+                continue;
+            }
+            ctx.count("deep_nesting_inputs", 1);
+            ctx.nontrivial();
+            let r = std::thread::Builder::new()
+                .stack_size(1 << 20)
+                .spawn(move || -> Result<usize, String> {
+                    let rs = RefSpec {
+                        elems: vec![
+                            ElemDef { name: "G".into(), id: 0x81, ty: Ty::Master, path: vec![PP::Glob(None, None)] },
+                            ElemDef { name: "Crc32".into(), id: ID_CRC, ty: Ty::B, path: vec![PP::Glob(Some(1), None)] },
+                            ElemDef { name: "Void".into(), id: ID_VOID, ty: Ty::B, path: vec![PP::Glob(None, None)] },
+                        ],
+                    };
+                    install_refspec(&rs);
+                    let mut bytes = Vec::with_capacity(2 * depth);
+                    for _ in 0..depth {
+                        bytes.extend_from_slice(&[0x81, 0xff]);
+                    }
+                    let cfg = Cfg { allow: 0, buffered: if buffered { vec![0x81] } else { vec![] }, cap: None, max_size: MaxSize::Default, eof_end: true };
+                    let mut it: TagIterator<&[u8], RT> = make_iter(&bytes[..], &cfg);
+                    let mut n = 0usize;
+                    loop {
+                        match catch_unwind(AssertUnwindSafe(|| it.next())) {
+                            Err(p) => return Err(format!("panic: {}", panic_msg(p))),
+                            Ok(None) => break,
+                            Ok(Some(Err(e))) => return Err(format!("error after {} items: {}", n, norm_err(&e).short())),
+                            Ok(Some(Ok(t))) => {
+                                n += 1;
+                                                                std::mem::forget(t);
+                            }
+                        }
+                        if n > 4 * depth + 8 {
+                            return Err("item budget exhausted".into());
+                        }
+                    }
+                    Ok(n)
+                })
+                .expect("machinery: spawn")
+                .join();
+            ctx.transitions += 2 * depth as u64;
+            match r {
+                Err(_) => ctx.violation("deep-nesting/harness-thread-panicked", &d, "machinery"),
+                Ok(Err(e)) => ctx.violation("deep-nesting/does-not-parse", &d, &e),
+                Ok(Ok(n)) => {
+                    let want = if buffered { 1 } else { 2 * depth };
+                    if n != want {
+                        ctx.violation("deep-nesting/item-count", &d, &format!("{} items, expected {}", n, want));
+                    }
+                }
             }
             ctx.validated += 1;
             ctx.leave();
